@@ -28,12 +28,16 @@ static void inspect(htp_connp_t *c, hx_obs *o, void *ctx) {
     if (CT.expect_chunked && tx->request_transfer_coding != HTP_CODING_CHUNKED)
         hx_verdict_add("C11", "not_chunked", "%s: chunked coding is present but the body is not framed by it (transfer coding %d)", CT.desc, tx->request_transfer_coding);
 }
+static const char *cur_gap = "";
 static void casing(char *dst, const char *src, int mode) {
     int up = 1;
     for (; *src; src++, dst++) { char ch = *src; if (mode == 0) ch = (char) tolower((unsigned char) ch); else if (mode == 1) ch = (char) toupper((unsigned char) ch); else { ch = up ? (char) toupper((unsigned char) ch) : (char) tolower((unsigned char) ch); up = (ch == '-'); } *dst = ch; }
+    /* white space between the field name and the colon ("surrounding whitespace"): the field is still the field */
+    for (const char *g = cur_gap; *g; g++) *dst++ = *g;
     *dst = 0;
 }
 static const char *const OWS[] = { "", " ", "\t", "  " };
+static const char *const GAPS[] = { "", " ", " \t", "\t  " };
 static long counter;
 static int CUTS;
 
@@ -77,13 +81,15 @@ static const uint64_t ALLF = HTP_REQUEST_SMUGGLING | HTP_REQUEST_INVALID | HTP_R
 static void gen_trigger(int trig, int full) {
     static const char *const CHUNKBODY = "3\r\nabc\r\n0\r\n\r\n";
     int ncase = 3, ntok = full ? 3 : 1, nows = full ? 4 : 2;
-    for (int nc = 0; nc < ncase; nc++) for (int tk = 0; tk < ntok; tk++) for (int o1 = 0; o1 < nows; o1++) for (int o2 = 0; o2 < nows; o2++) {
+    for (int gp = 0; gp < 4; gp++) for (int nc = 0; nc < ncase; nc++) for (int tk = 0; tk < ntok; tk++) for (int o1 = 0; o1 < nows; o1++) for (int o2 = 0; o2 < nows; o2++) {
         if (!full && o1 != o2) continue;
+        if (gp && (tk || o1 != o2)) continue;            /* the gap dimension: with the diagonal of the value-side white space, lower-case token */
+        cur_gap = GAPS[gp];
         hline L[6]; int nl = 0; char nm[40], nm2[40], tok[16];
         const char *reqline = "POST /p HTTP/1.1\r\n"; const char *body = "abc";
         const char *host = "h.example";
         int variants = 1;
-        casing(tok, "chunked", tk);
+        cur_gap = ""; casing(tok, "chunked", tk); cur_gap = GAPS[gp];
         CT.trig = trig; CT.must_set = 0; CT.must_clear = 0; CT.expect_chunked = 0;
         if (trig == T_CL_UNPARSEABLE) variants = 4; else if (trig == T_TE_UNSUPPORTED) variants = 3; else if (trig == T_HOSTH_INVALID || trig == T_HOSTU_INVALID) variants = 8; else if (trig == T_TE_CL) variants = 5; else if (trig == T_HOST_MISSING) variants = 3;
         for (int v = 0; v < variants; v++) {
